@@ -73,6 +73,17 @@ SpellTo ==
   @@ ("J:[1,2.5,\"x\",null,true]" :> "J:[1, 2.5, \"x\", null, true]")
   @@ ("J:[1, 2.5, \"x\", null, true]" :> "J:[1, 2.5, \"x\", null, true]")
   @@ ("J:[1, 2]" :> "J:[1, 2]")
+  \* JSON escapes (RFC 8259 section 7): \uXXXX in either case of the hex digits, \/ and an escaped
+  \* ASCII letter are spellings of the same string; a character outside printable ASCII can only be
+  \* given (and written) escaped, a field being printable ASCII
+  @@ ("J:{\"lab\":\"Universit\\u00e9\",\"\\u00b5\":[1,2]}" :> "J:{\"lab\": \"Universit\\u00e9\", \"\\u00b5\": [1, 2]}")
+  @@ ("J:{\"lab\": \"Universit\\u00e9\", \"\\u00b5\": [1, 2]}" :> "J:{\"lab\": \"Universit\\u00e9\", \"\\u00b5\": [1, 2]}")
+  @@ ("J:[\"\\u00E9\\u65e5\",\"\\ud83d\\ude00\"]" :> "J:[\"\\u00e9\\u65e5\", \"\\ud83d\\ude00\"]")
+  @@ ("J:[\"\\u00e9\\u65e5\", \"\\ud83d\\ude00\"]" :> "J:[\"\\u00e9\\u65e5\", \"\\ud83d\\ude00\"]")
+  @@ ("J:[\"a\\/b\",\"\\u0041\",\"q\\\"\\\\\"]" :> "J:[\"a/b\", \"A\", \"q\\\"\\\\\"]")
+  @@ ("J:[\"a/b\", \"A\", \"q\\\"\\\\\"]" :> "J:[\"a/b\", \"A\", \"q\\\"\\\\\"]")
+  @@ ("J:[\"\\n\\t\\b\\f\\r\",\"\\u000a\\u001f\\u007f\"]" :> "J:[\"\\n\\t\\b\\f\\r\", \"\\n\\u001f\\u007f\"]")
+  @@ ("J:[\"\\n\\t\\b\\f\\r\", \"\\n\\u001f\\u007f\"]" :> "J:[\"\\n\\t\\b\\f\\r\", \"\\n\\u001f\\u007f\"]")
   @@ ("H:1AE3" :> "H:1AE3")
   @@ ("B:f,1.5,2.0" :> "B:f,1.5,2.0")
   @@ ("B:f,1,2.5" :> "B:f,1.0,2.5") @@ ("B:f,1.0,2.5" :> "B:f,1.0,2.5")
@@ -97,6 +108,8 @@ Var == <<
   Tg("fd", "f", "0.1234567891"), Tg("fe", "f", "-5"),
   Tg("za", "Z", "with space"),
   Tg("ja", "J", "{\"a\": 1}"), Tg("jb", "J", "{\"a\":1}"), Tg("jc", "J", "[1,2.5,\"x\",null,true]"), Tg("jd", "J", "[1, 2]"),
+  Tg("je", "J", "{\"lab\":\"Universit\\u00e9\",\"\\u00b5\":[1,2]}"), Tg("jf", "J", "[\"\\u00E9\\u65e5\",\"\\ud83d\\ude00\"]"),
+  Tg("jg", "J", "[\"a\\/b\",\"\\u0041\",\"q\\\"\\\\\"]"), Tg("jh", "J", "[\"\\n\\t\\b\\f\\r\",\"\\u000a\\u001f\\u007f\"]"),
   Tg("ha", "H", "1AE3"),
   TgB("ba", "C", <<"1", "2">>), TgB("bb", "i", <<"1", "2">>),
   TgB("bc", "f", <<"1.5", "2.0">>), TgB("bd", "f", <<"1", "2.5">>), TgB("be", "c", <<"-1", "2">>) >>
@@ -209,6 +222,7 @@ BadFields == <<"cn:A:xy", "cn:i:abc", "cn:i:1.5", "cn:f:abc", "cn:J:{", "cn:J:[1
 \* positional fields only because of what stands to their right
 GoodFields(n) == <<n \o ":A:x", n \o ":i:+5", n \o ":f:1e3", n \o ":Z:with space", n \o ":J:{\"a\":1}",
                    n \o ":H:1AE3", n \o ":B:i,1,2", n \o ":B:f,1,2.5">>
+LongRts == <<"HX", "SQ", "LNK", "CTG", "PTH", "EX", "FRG", "GP", "OX", "UX", "H1", "Sx", "h", "s">>
 BoundaryCustom ==
      \* k = 1, m = 1: refused for its value / letter / name, after a plain field
      [i \in DOMAIN BadFields |-> CuT("X", <<"counts", BadFields[i]>>, <<Tg("yy", "Z", "k")>>)]
@@ -221,6 +235,9 @@ BoundaryCustom ==
      \* a good tag left of a field that is not one (plain / refused)
   \o [i \in DOMAIN GoodFields("kk") |-> CuT("Y", <<GoodFields("kk")[i], "plain">>, <<Tg("kk", "Z", "second"), Tg("zz", "f", "1.5")>>)]
   \o [i \in DOMAIN GoodFields("q1") |-> CuT("X", <<GoodFields("q1")[i], BadFields[((3 * i) % Len(BadFields)) + 1]>>, <<Tg("yy", "Z", "k")>>)]
+     \* record types of more than one character that begin like a standard one (or differ from one
+     \* in case): the record type is the whole first field
+  \o [i \in DOMAIN LongRts |-> CuT(LongRts[i], <<"a", "b">>, <<Tg("rt", "i", "+5")>>)]
      \* k = 0: nothing but tags; a record type alone
   \o <<CuT("X", <<>>, <<Tg("q1", "i", "+5")>>),
        CuT("X", <<>>, <<Tg("q1", "i", "+5"), Tg("q2", "f", "1e3")>>),
@@ -410,6 +427,10 @@ SpecialDocs(ver) == UNION {{{i}, {i, FirstSeg(ver)}} : i \in SpecialIdx(ver)}
 BoundaryIdx(ver) == IF ver = "gfa1" THEN {}
                     ELSE (Len(Cat2) - Len(BoundaryCustom) + 1)..Len(Cat2)
 BoundaryDocs(ver) == {{i, i + 1} : i \in {x \in BoundaryIdx(ver) : x + 1 \in BoundaryIdx(ver)}}
+\* the custom record with segments, an edge and a gap: in descending order the custom record comes
+\* first and the version of the document is decided by a later line
+LongRtIdx(ver) == {i \in BoundaryIdx(ver) : Cat(ver)[i].rt \in Rng(LongRts)}
+LateDocs(ver) == UNION {{{i, 6, 7, 9}, {i, 6, 7, 18}} : i \in LongRtIdx(ver)}
 
 -----------------------------------------------------------------------------
 (* (c) WRITER NORMAL FORM *)
